@@ -7,7 +7,7 @@ from typing import Dict, List, Optional, Set
 from .. import cfg as cfgmod
 from .. import regexast
 from ..absint import Const, IntIv, Interp, StrOf, Tup, as_iv
-from ..astutil import alias_map, call_name, expand_alias, fstring_parts, kwarg, literal
+from ..astutil import is_attr_of, alias_map, call_name, expand_alias, fstring_parts, kwarg, literal
 from ..index import AnalysisError, AnchorVanished, norm, short, walk_local
 from .c18 import _color
 
@@ -409,4 +409,72 @@ def r19_9(ctx):
             ctx.check(norm(t).lstrip("_") not in {a.lstrip("_") for a in mutated}, c.fq, norm(st), f"{c.module.relpath}:{st.lineno}", "no mutable class-level default for mutated state", f"class-level mutable default `{norm(st)}` is mutated through self")
 
 
-RULES = [r19_1, r19_2, r19_3, r19_4, r19_5, r19_6, r19_8, r19_9]
+def r19_10(ctx):
+    ctx.rule("R19.10", "the decoder's running style reaches every character it returns: AnsiDecoder.decode_line returns only the Text it accumulates, and every plain-text piece is appended to it with the current style (self.style) - a return of a Text built straight from the input (a 'no escape codes in this line' shortcut) drops a style or link opened on an earlier line and not yet reset")
+    f = ctx.repo.fn("ansi:AnsiDecoder.decode_line")
+    m = f.module
+    al = alias_map(f.node)
+    from ..astutil import single_defs as _sdf
+    sd = _sdf(f.node)
+    accs = {k for k, v in sd.items() if isinstance(v, ast.Call) and norm(v.func) == "Text" and not v.args and not v.keywords}
+    if len(accs) != 1:
+        raise AnalysisError("AnsiDecoder.decode_line: expected one accumulator `text = Text()`")
+    acc = accs.pop()
+    rets = [r for r in walk_local(f.node) if isinstance(r, ast.Return)]
+    ctx.floor(len(rets), 1, "returns of decode_line")
+    for r in rets:
+        where = f"{m.relpath}:{r.lineno}"
+        if r.value is not None and norm(r.value) == acc:
+            ctx.ok(where, "returns the accumulated text", f.fq)
+            continue
+        v = r.value
+        if isinstance(v, ast.Call) and norm(v.func) in ("Text", "Text.from_markup", "Text.assemble") and (v.args or v.keywords):
+            st = next((k.value for k in v.keywords if k.arg == "style"), v.args[1] if len(v.args) > 1 else None)
+            if st is not None and "self.style" in norm(st):
+                ctx.ok(where, "returned text carries self.style", f.fq)
+            else:
+                ctx.violation(f.fq, short(r), where, f"`{short(r)}` returns text built straight from the input without the decoder's current style: in '\\x1b[1;31mfoo\\nbar\\nbaz\\x1b[0m' the line `bar` contains no escape code and loses the bold red that is still in force")
+        else:
+            raise AnalysisError(f"AnsiDecoder.decode_line: `{short(r)}` returns something this rule does not read")
+    n = 0
+    for x in walk_local(f.node):
+        if isinstance(x, ast.Call) and norm(expand_alias(x.func, al)) == f"{acc}.append" and x.args:
+            n += 1
+            st = x.args[1] if len(x.args) > 1 else next((k.value for k in x.keywords if k.arg == "style"), None)
+            ctx.check(st is not None and "self.style" in norm(st), f.fq, short(x), f"{m.relpath}:{x.lineno}", "plain text appended with the current style",
+                      f"`{short(x)}` appends decoded text without the decoder's current style")
+    ctx.floor(n, 1, "appends to the accumulated text")
+
+
+def r19_11(ctx):
+    from .. import cfg as cfgmod
+    ctx.rule("R19.11", "each stream is redirected under its own switch: in _enable_redirect_io of Live and Progress the statement that installs the proxy for sys.stdout (resp. sys.stderr) and the one that saves the original are dominated by the fact `self._redirect_stdout` (resp. `self._redirect_stderr`) - the sibling implementations agree; a block guarded by the other stream's flag leaves stderr unredirected when only it was asked for (its lines bypass the console) and redirects it when it was not")
+    n = 0
+    for spec in ("live:Live", "progress:Progress"):
+        f = ctx.repo.cls(spec).method("_enable_redirect_io")
+        if f is None:
+            raise AnchorVanished(f"{spec}._enable_redirect_io not found")
+        m = f.module
+        g = cfgmod.build(f.node)
+        for nd in g.stmt_nodes():
+            if nd.kind != "stmt" or not isinstance(nd.stmt, ast.Assign) or len(nd.stmt.targets) != 1:
+                continue
+            t, v = nd.stmt.targets[0], nd.stmt.value
+            stream = None
+            if norm(t) in ("sys.stdout", "sys.stderr"):
+                stream = norm(t).split(".")[1]
+            elif norm(v) in ("sys.stdout", "sys.stderr") and is_attr_of(t, "self"):
+                stream = norm(v).split(".")[1]
+            if stream is None:
+                continue
+            n += 1
+            facts = {(norm(t0), v0) for t0, v0 in g.branch_facts(nd.id)}
+            want = f"self._redirect_{stream}"
+            other = f"self._redirect_{'stderr' if stream == 'stdout' else 'stdout'}"
+            ok = (want, True) in facts
+            ctx.check(ok, f.fq, short(nd.stmt), f"{m.relpath}:{nd.lineno}", f"{stream} handled under `{want}`",
+                      f"`{short(nd.stmt)}` handles sys.{stream} but is not guarded by `{want}`" + (f" (it is guarded by `{other}`)" if (other, True) in facts else "") + f": with redirect_{stream}=True and the other flag off, what is written to {stream} during the live display goes straight to the terminal instead of being printed through the console above the frame")
+    ctx.floor(n, 8, "stream save / install statements in _enable_redirect_io")
+
+
+RULES = [r19_1, r19_2, r19_3, r19_4, r19_5, r19_6, r19_8, r19_9, r19_10, r19_11]
